@@ -960,8 +960,10 @@ impl<'a> Ctx<'a> {
                         let others_same_stage = group.iter().filter(|g| g.stage == f.stage && g.file != f.file).count();
                         let sig = if f.stage != first_stage {
                             format!("unnamed:{}:masked-by:{}", f.stage, first_stage)
-                        } else if f.stage == "schema-ext" && others_same_stage > 0 {
-                            "unnamed:schema-ext:masked-by:schema-ext".to_string()
+                        } else if (f.stage == "schema-ext" || f.stage == "op-import") && others_same_stage > 0 {
+                            // resolvers that return a single error: of the schema (first extension fault only), of one
+                            // operation file (the first import fault met, possibly inside a file it imports)
+                            format!("unnamed:{}:masked-by:{}", f.stage, f.stage)
                         } else {
                             format!("unnamed:{}:{}:not-masked", f.stage, f.kind)
                         };
@@ -1189,6 +1191,9 @@ fn corpus() -> Vec<Case> {
         // extension-stage fault hides import and check faults (open findings)
         base(vec![s0, s1], vec![("ops/o0.graphql", "#import * * from \"./o1.graphql\"\nquery Q0 { me { id } }\n"), ("ops/o1.graphql", "#import F from \"./missing.graphql\"\nquery Q1 { me { id } }\n"), ("ops/o2.graphql", "query Q2 { me { zzz } }\n")], vec!["check"],
             vec![("wildcard-twice", "ops/o0.graphql", "op-ext"), ("dangling-import", "ops/o1.graphql", "op-import"), ("unknown-field", "ops/o2.graphql", "op-check")]),
+        // a file importing from a file whose own import fails is not named (open finding)
+        base(vec![s0, s1], vec![("ops/o0.graphql", "#import A from \"./o1.graphql\"\nquery Q0 { me { id } }\n"), ("ops/o1.graphql", "#import B from \"./o2.graphql\"\nquery Q1 { me { id } }\n"), ("ops/o2.graphql", "query Q2 { me { id } }\n")], vec!["check"],
+            vec![("missing-fragment", "ops/o0.graphql", "op-import"), ("missing-fragment", "ops/o1.graphql", "op-import")]),
         // schema extension stage reports one error only (open findings)
         base(vec![("schema/s0.graphql", "type Query { me: User! }\nextend type NopeA { x: Int }\n"), ("schema/s1.graphql", "type User { id: ID! name: String }\nextend type NopeB { x: Int }\n"), ("schema/s2.graphql", "type Extra { f: NopeType }\n")], vec![o0], vec!["check"],
             vec![("orphan-extension", "schema/s0.graphql", "schema-ext"), ("orphan-extension", "schema/s1.graphql", "schema-ext"), ("unknown-type", "schema/s2.graphql", "schema-check")]),
